@@ -1018,6 +1018,7 @@ impl Case {
         let mut alone: Vec<(Scenario, RunResult)> = vec![];
         let mut missing_template: Option<(usize, RunResult)> = None;
         let mut missing_run = 0;
+        let mut core_panic = vec![false; self.files.len()];
         for i in 0..self.files.len() {
             let sc = self.alone(i);
             // wide batches of non-existent paths: the alone invocation of a missing file differs
@@ -1052,7 +1053,16 @@ impl Case {
             if io_layer_panic {
                 stats.probe("c18_file_whose_alone_run_panics_outside_the_core");
             }
-            if (r.exit == Exit::Timeout || abnormal(&r) || r.exit == Exit::Budget) && !io_layer_panic {
+            // A panic inside pasfmt-core is also how this file fails alone (exit status 101, file
+            // untouched); what the batch does to the *other* files is C18's business. In the
+            // generators such content is replaced by the pre-screen, except for a few fixed
+            // inputs planted on purpose (see `CORE_PANIC_CANARIES`).
+            let core_layer_panic = matches!(r.exit, Exit::Panic(_)) && !io_layer_panic;
+            if core_layer_panic && self.files.len() > 1 {
+                core_panic[i] = true;
+                stats.probe("c18_file_whose_alone_run_panics_inside_the_core");
+            }
+            if (r.exit == Exit::Timeout || abnormal(&r) || r.exit == Exit::Budget) && !io_layer_panic && !core_panic[i] {
                 if let Exit::Broken(m) = &r.exit {
                     return Verdict::HarnessError(format!("alone run: {m}"));
                 }
@@ -1088,6 +1098,17 @@ impl Case {
             return Verdict::Judged(out);
         }
 
+        // a file that panics inside pasfmt-core was in the batch and the batch ended in that panic
+        let repo = std::env::var("PASFMT_REPO").unwrap_or_else(|_| "/repo".to_string());
+        let batch_core_panic = core_panic.iter().any(|x| *x)
+            && matches!(r.exit, Exit::Panic(_))
+            && r.real_stderr.contains(&format!("{repo}/core/src/"));
+        let panic_site = r
+            .real_stderr
+            .lines()
+            .find(|l| l.contains("panicked at"))
+            .map(|l| l.replace(&repo, "<repo>"))
+            .unwrap_or_default();
         let mut any_failed = false;
         let mut expected_blocks: Vec<&[u8]> = vec![];
         // a file named k times may legitimately be printed 1..k times
@@ -1157,7 +1178,18 @@ impl Case {
                         stats.probe("c18_file_with_two_names_compared_with_second_pass");
                     }
                 }
-                if got != want && !(twice.is_some() && got == twice.as_deref()) {
+                let orig = if f.exists { Some(&f.bytes[..]) } else { None };
+                if got != want && batch_core_panic && !core_panic[i] && got == orig {
+                    // the unwinding panic of another file took this worker's remaining share of
+                    // the batch with it
+                    out.push(Finding {
+                        oracle: "c18.file_not_processed_after_panic_elsewhere".into(),
+                        detail: format!(
+                            "file {} ({}) is formatted when alone but was left untouched by the batch, which ended in a pasfmt-core panic on another file [{}]",
+                            i, f.path, panic_site
+                        ),
+                    });
+                } else if got != want && !(twice.is_some() && got == twice.as_deref()) {
                     out.push(Finding {
                         oracle: "c18.batch_ne_alone".into(),
                         detail: format!(
@@ -1189,6 +1221,11 @@ impl Case {
         if !self.bogus_paths.is_empty() {
             any_failed = true;
             stats.probe("c18_bogus_path_argument_in_batch");
+        }
+        if batch_core_panic {
+            // files that were never reached print and report nothing: already judged above
+            optional_blocks.append(&mut expected_blocks);
+            judged_logs.clear();
         }
         if exit_nonzero(&r) != any_failed {
             out.push(Finding {
